@@ -7,7 +7,9 @@
    * "housekeeping tick at time tau": Tick tau; the datagram path of the udp
      server ticks at tau = t + look (look = its documented look-ahead);
    * "no message was received for a full period" at tau: every message time r
-     seen so far (and the creation time t0) satisfies r + period < tau;
+     seen so far (and the creation time t0) satisfies r + period < tau; then the
+     monitor must act.  It must not act while some r + period > tau.  At the
+     exact boundary r + period = tau the text allows both;
    * a "failure" (unanswered probe round): a tick at which the monitor acted
      (sent or tried to send a ping, or closed).  maxRetries = max: failures
      1..max send a ping each, failure max+1 closes -- "closed only after more
@@ -57,6 +59,11 @@ Definition tick_time (P : params) (e : ev) : option Z :=
 Definition idle_at (P : params) (past : list item) (tau : Z) : bool :=
   negb (p_period P =? 0) && forallb (fun r => r + p_period P <? tau) (p_t0 P :: rx_all past).
 
+(* the exact boundary: the latest message is at least a full period old (the
+   text allows a close when exactly one period has passed, and does not demand it) *)
+Definition quiet_at (P : params) (past : list item) (tau : Z) : bool :=
+  negb (p_period P =? 0) && forallb (fun r => r + p_period P <=? tau) (p_t0 P :: rx_all past).
+
 (* generation of the latest ping sent or attempted (0: none yet) *)
 Fixpoint ping_of (o : list obs) : option Z :=
   match o with
@@ -101,10 +108,10 @@ Definition judge (P : params) (past : list item) (it : item) : N :=
   else match tick_time P e with
   | None => if has_strike o then 7%N else 0%N
   | Some tau =>
-      if negb (idle_at P past tau) then
+      if negb (quiet_at P past tau) then
         (if has_close o then 1%N else if has_strike o then 2%N else 0%N)
+      else if negb (has_strike o) then (if idle_at P past tau then 3%N else 0%N)
       else if negb (p_ka P) then (if has_close o then 0%N else 3%N)
-      else if negb (has_strike o) then 3%N
       else if has_close o then (if p_max P <=? failures past then 0%N else 4%N)
       else if p_max P <=? failures past then 5%N
       else 0%N
